@@ -17,22 +17,21 @@ SPEC = dict(
                 "identical font in any permutation. The model is tied to the code on every run by evaluating it (vm_compute) on ~4800 calls of the "
                 "real PatchGroup::apply_next_patches_with_decoder (all permutations of <=4 patches, all two-call groupings, decoder failing at every "
                 "call index with every DecodeError kind, 26 kinds of malformed patch/font/status map, table-keyed drop/replace/diff/duplicates/damaged offsets). "
-                "grouping independence, the short-loca size threshold and the loca decode(encode) round trip are checked on the implementation only."),
+                "Round 2: the model IS the run-by-run builder loop as coded (c18_run_loop_is_glyph_loop: whenever it succeeds it returns the glyph-by-glyph specification's result); gvar (short/long offsets, widening, flag byte, shared tuples, serializer capacity) is modelled and covered by correspondence; grouping independence (one call with ps1++ps2 = two calls) is proved for glyf/loca incl. the loca encode/decode round trip; c18_replace_ignores_base / c18_diff_uses_base pin the decoder's dictionary argument. The 131070-byte short-offset thresholds (glyf: rejection; gvar: widening) are checked on the implementation only."),
     level_note=("Trusted: Coq kernel; the hand-written model coq/C18/Model.v (agreement with incremental-font-transfer is checked per run, not proved); the harness "
-                "generator and its fault-injecting identity-framing decoder (modelled as test_dec). The builder is modelled glyph by glyph; the literal run-by-run "
-                "transcription build_runs is evaluated next to it on every case (runs_agree) but their equality is not proved. gvar/CFF/CFF2 header rewriting is outside the model."),
+                "generator and its fault-injecting identity-framing decoder (modelled as test_dec). CFF/CFF2 charstrings rewriting is outside the model. grouping independence for patches listing gvar is tested only (oracle over all two-call groupings)."),
     technique="Coq proof (induction over the builder loop, sorted-map extensionality, Permutation) over hand-written Gallina model + vm_compute correspondence with incremental-font-transfer through the public PatchGroup API",
     modelled=["incremental-font-transfer/src/patch_group.rs: PatchGroup::apply_next_patches_with_decoder (status map, invalidating vs non-invalidating part)",
               "incremental-font-transfer/src/font_patch.rs: FontRef::apply_table_keyed_patch, FontRef::apply_glyph_keyed_patches (compat-id checks, patch readers)",
               "incremental-font-transfer/src/table_keyed.rs: apply_table_keyed_patch, apply_table_patch, copy_unprocessed_tables",
               "incremental-font-transfer/src/glyph_keyed.rs: apply_glyph_keyed_patches, table_tag_list, dedup_gid_replacement_data, retained_glyphs_in_font, retained_glyphs_total_size, "
-              "patch_offset_array, OffsetArrayBuilder::build, OffsetType, GlyfAndLoca (offset_for/get/add_to_font), applied-bit marking",
+              "patch_offset_array, OffsetArrayBuilder::build (literal run-by-run loop), OffsetType, GlyfAndLoca and Gvar as GlyphDataOffsetArray (offset_type/available_offset_types/offset_for/all_offsets_are_ascending/get/add_to_font incl. klippa Serializer capacity and object order), applied-bit marking",
               "read-fonts/src/tables/ift.rs + generated readers: TableKeyedPatch/TablePatch/GlyphKeyedPatch/GlyphPatches::read, GlyphPatches::glyph_data_for_table (GlyphDataIterator)",
               "write-fonts FontBuilder as a sorted finite map (add_raw = BTreeMap::insert); head.checkSumAdjustment (bytes 8..12) compared modulo"],
-    not_covered=["gvar / CFF / CFF2 add_to_font (header, shared tuples, charstrings INDEX rewriting): outside the model and not exercised (model returns class 98 if reached)",
-                 "grouping_independent (one call with ps1++ps2 vs two calls): no Coq theorem; implementation-only oracle over all two-call groupings, each call also a correspondence case",
-                 "run-by-run builder loop = glyph-by-glyph builder loop: evaluated on every case, not proved",
-                 "loca decode(encode(offsets)) = offsets and total-size = data length: implementation-only oracle (incl. fonts straddling the 131070-byte short-loca limit)",
+    not_covered=["CFF / CFF2 add_to_font (charstrings INDEX rewriting, 1-4 byte offSize): outside the model and not exercised (model returns class 98 if reached)",
+                 "grouping independence for patch sets that list gvar: implementation-only oracle (no gvar decode(assemble) round-trip lemma)",
+                 "error agreement of the literal loop with the glyph-by-glyph specification (only success is related; the model itself is the literal loop, so correspondence covers errors)",
+                 "widening thresholds (131070 bytes) for glyf/gvar: implementation-only oracle (inputs too large for vm_compute shards)",
                  "patch selection (which URIs form the group): C19; the harness reads the group back through PatchGroup::uris()",
                  "real brotli decoders: outside the model (decoder is a parameter)"],
     assumptions=["decoder is a function of (call index, input, dictionary, max length) — arbitrary otherwise",
